@@ -69,6 +69,8 @@ def r5_dot(run, tree):
     run.rule("C09.R5", "dot product = sum of component products as physical quantities; unit provenance", "D7 fold of Vector.dot over quantities", "",
              floor=5)
     vq.check_dot(run, tree)
+    from . import quantity_stack as qs
+    qs.check_dot_shapes(run, tree)
 
 
 def r6_construction(run, tree):
@@ -91,7 +93,14 @@ def r8_gate(run, tree):
     af.check_wrap_numpy_fold(run, tree, want=("gate-numeric", "gate-bool"))
 
 
-RULES = [r1_forwarding, r2_lifting, r3_cross, r4_norm, r5_dot, r6_construction, r7_conversion, r8_gate, r4b_norm_corners]
+def r10_agreement(run, tree):
+    run.rule("C09.R10", "end to end: v op y equals, component by component, v.c op y on the component Arrays - same values, same units, same refusals - for y a python 0, "
+             "a python number, an Array or a Quantity in compatible and incompatible units", "D7 fold of core/vector.py and core/array.py together with dispatching numpy models", "", floor=6)
+    from . import quantity_stack as qs
+    qs.check_vector_lifting_stack(run, tree)
+
+
+RULES = [r1_forwarding, r2_lifting, r3_cross, r4_norm, r5_dot, r6_construction, r7_conversion, r8_gate, r4b_norm_corners, r10_agreement]
 
 
 def t_pair_space(run, tree):
